@@ -229,6 +229,31 @@ fn lex_part(st: &mut St, group: &str, cls: &str, dialect: &str, tf: &TemplatedFi
         }
     };
     let covered = els.last().map(|e| e.1).unwrap_or(0);
+    // hypotheses of C15_map, monitored on real data
+    {
+        let mut pos = 0;
+        let mut ok = true;
+        for e in &els {
+            if e.0 != pos || e.1 <= e.0 {
+                ok = false;
+            }
+            pos = e.1;
+        }
+        out.hyp("wf_elems(lexed elements non-empty, contiguous from 0, inside the rendered text)", "blocking", ok && pos <= tpl.len(), json!({"input":input,"elements":els}));
+        let mut pt = 0;
+        let mut okc = true;
+        for s in &sl {
+            if s.3 != pt || s.4 < s.3 || !(s.3 == s.4 || s.0 <= 1) {
+                okc = false;
+            }
+            pt = s.4;
+        }
+        if group == "lex" {
+            out.hyp("wf_slices(process output: templated ranges contiguous from 0, literal/templated)", "blocking", okc && pt == tpl.len(), json!({"input":input,"slices":sl}));
+        } else if okc {
+            out.count("synthetic_lists_satisfying_wf_slices", 1);
+        }
+    }
     if covered != tpl.len() {
         out.count("lexer_dropped_tail(C01)", 1);
     }
@@ -871,7 +896,7 @@ pub fn main(args: &Args) {
                 }
             }
         }
-        let (n_ph, n_syn, n_mal) = if args.thorough() { (30000, 30000, 3000) } else { (2200, 2500, 300) };
+        let (n_ph, n_syn, n_mal) = if args.thorough() { (30000, 30000, 3000) } else { (1800, 2000, 200) };
         for _ in 0..n_ph {
             let it = gen_placeholder(&mut rng, &bases);
             let s = rng.next();
